@@ -1,21 +1,21 @@
 package main
 
 import (
-	"os/exec"
-	"go/constant"
-	"math/big"
-	"strconv"
 	"bytes"
 	"crypto/sha256"
 	"encoding/hex"
 	"fmt"
 	"go/ast"
+	"go/constant"
 	"go/printer"
 	"go/token"
 	"go/types"
+	"math/big"
 	"os"
+	"os/exec"
 	"path/filepath"
 	"sort"
+	"strconv"
 	"strings"
 
 	"golang.org/x/tools/go/packages"
@@ -337,18 +337,18 @@ func stripPos(n ast.Node) ast.Node { return n }
 // ---------------------------------------------------------------------------------------------
 
 type FuncReport struct {
-	Key        string   `json:"function"`
-	File       string   `json:"file"`
-	Lines      string   `json:"lines"`
-	Hash       string   `json:"source_sha256"`
-	Dropped    []string `json:"dropped_constructs,omitempty"`
-	Inlined    []string `json:"inlined_callees,omitempty"`
-	Assumed    []string `json:"assumed_contracts,omitempty"`
-	Notes      []string `json:"notes,omitempty"`
-	OutOfSub   string   `json:"out_of_subset,omitempty"`
-	Missing    bool     `json:"target_missing,omitempty"`
-	NObl       int      `json:"obligations"`
-	Axioms     []string `json:"axioms,omitempty"`
+	Key         string   `json:"function"`
+	File        string   `json:"file"`
+	Lines       string   `json:"lines"`
+	Hash        string   `json:"source_sha256"`
+	Dropped     []string `json:"dropped_constructs,omitempty"`
+	Inlined     []string `json:"inlined_callees,omitempty"`
+	Assumed     []string `json:"assumed_contracts,omitempty"`
+	Notes       []string `json:"notes,omitempty"`
+	OutOfSub    string   `json:"out_of_subset,omitempty"`
+	Missing     bool     `json:"target_missing,omitempty"`
+	NObl        int      `json:"obligations"`
+	Axioms      []string `json:"axioms,omitempty"`
 	Termination []string `json:"termination_not_proved,omitempty"`
 }
 
